@@ -60,6 +60,10 @@ pub struct BCase {
     pub ops: Vec<Op>,
     pub salt: u32,
     pub kill_restart: bool,
+    /// how the data directory is named: 0 absolute path, 1 with a trailing slash, 2 relative to the
+    /// working directory, 3 through a symbolic link
+    #[serde(default)]
+    pub dir_form: u8,
 }
 
 pub struct Proc {
@@ -91,6 +95,7 @@ pub struct Launch {
     pub args: Vec<String>,
     pub env: Vec<(String, String)>,
     pub connect: Vec<SocketAddr>,
+    pub cwd: Option<PathBuf>,
 }
 
 fn plan_launch(bc: &BCase, dir: &Path, clients: &[Uuid]) -> Option<Launch> {
@@ -122,11 +127,32 @@ fn plan_launch(bc: &BCase, dir: &Path, clients: &[Uuid]) -> Option<Launch> {
         }
         ListStyle::Env => env.push(("LISTEN".to_string(), listen.join(","))),
     }
+    // the same directory, named in different ways
+    let mut cwd = None;
+    let named: String = match bc.dir_form % 4 {
+        1 => format!("{}/", dir.to_string_lossy()),
+        2 => {
+            cwd = dir.parent().map(|p| p.to_path_buf());
+            if let Some(c) = &cwd {
+                let _ = std::fs::create_dir_all(c);
+            }
+            format!("./{}", dir.file_name().map(|f| f.to_string_lossy().into_owned()).unwrap_or_default())
+        }
+        3 => {
+            let link = dir.with_file_name(format!("{}-link", dir.file_name().map(|f| f.to_string_lossy().into_owned()).unwrap_or_default()));
+            let _ = std::fs::create_dir_all(dir);
+            if !link.exists() {
+                let _ = std::os::unix::fs::symlink(dir, &link);
+            }
+            link.to_string_lossy().into_owned()
+        }
+        _ => dir.to_string_lossy().into_owned(),
+    };
     match bc.data_dir_src {
-        Src::Env => env.push(("DATA_DIR".into(), dir.to_string_lossy().into_owned())),
+        Src::Env => env.push(("DATA_DIR".into(), named)),
         _ => {
             args.push("--data-dir".into());
-            args.push(dir.to_string_lossy().into_owned());
+            args.push(named);
         }
     }
     if let Some((k, extra)) = bc.allow {
@@ -167,12 +193,15 @@ fn plan_launch(bc: &BCase, dir: &Path, clients: &[Uuid]) -> Option<Launch> {
         }
         Src::Env => env.push(("SNAPSHOT_DAYS".into(), bc.snapshot_days.1.to_string())),
     }
-    Some(Launch { args, env, connect })
+    Some(Launch { args, env, connect, cwd })
 }
 
 pub fn spawn(bin: &Path, l: &Launch) -> Result<Proc, String> {
     let mut cmd = Command::new(bin);
     cmd.args(&l.args).env_clear().stdin(Stdio::null()).stdout(Stdio::null()).stderr(Stdio::null());
+    if let Some(c) = &l.cwd {
+        cmd.current_dir(c);
+    }
     for (k, v) in &l.env {
         cmd.env(k, v);
     }
@@ -449,11 +478,11 @@ fn bcase(max_ops: usize) -> BoxedStrategy<BCase> {
         (src(), prop_oneof![4 => 0i64..4, 1 => Just(i64::MAX / 2)]),
         proptest::collection::vec(case::op(4, &p), 4..=max_ops),
         any::<u32>(),
-        prop::bool::weighted(0.5),
+        (prop::bool::weighted(0.5), prop_oneof![3 => Just(0u8), 1 => Just(1u8), 1 => Just(2u8), 1 => Just(3u8)]),
     )
-        .prop_map(|(mut hosts, listen_style, data_dir_src, allow, allow_style, snapshot_versions, snapshot_days, ops, salt, kill_restart)| {
+        .prop_map(|(mut hosts, listen_style, data_dir_src, allow, allow_style, snapshot_versions, snapshot_days, ops, salt, (kill_restart, dir_form))| {
             hosts.dedup();
-            BCase { hosts, listen_style, data_dir_src, allow, allow_style, snapshot_versions, snapshot_days, ops, salt: salt & 0xFFFF, kill_restart }
+            BCase { hosts, listen_style, data_dir_src, allow, allow_style, snapshot_versions, snapshot_days, ops, salt: salt & 0xFFFF, kill_restart, dir_form }
         })
         .boxed()
 }
